@@ -16,3 +16,23 @@ func VerifExpandFilenames(globs []string) ([]string, error) { return expandFilen
 func VerifReadConfigGenerateAndWrite(configFilename string) error {
 	return readConfigGenerateAndWrite(configFilename)
 }
+
+// VerifRefs resolves the given Go type names, in order, with a fresh
+// generator whose own package is pkgPath (generator.ref), and returns each
+// reference (or "error: ...") followed by the resulting import table as
+// "path=alias" entries in allocation-independent (sorted by path) order.
+func VerifRefs(pkgPath string, names []string) (refs []string, imports map[string]string) {
+	g := &generator{
+		Config:      &Config{pkgPath: pkgPath},
+		imports:     map[string]string{},
+		usedAliases: map[string]bool{},
+	}
+	for _, name := range names {
+		ref, err := g.ref(name)
+		if err != nil {
+			ref = "error: " + err.Error()
+		}
+		refs = append(refs, ref)
+	}
+	return refs, g.imports
+}
